@@ -108,6 +108,10 @@ func build(c Case) (built, error) {
 	return built{sb.String(), ctx}, nil
 }
 
+// the standard builder every command uses (function table + auto-optimise);
+// compiling does not modify it, so one instance serves all cases.
+var stdBuilder = stdlib.NewStdKeyBuilder()
+
 type result struct {
 	tmpl     string
 	out      string
@@ -129,7 +133,7 @@ func eval(c Case) (result, error) {
 	if err != nil {
 		return result{}, err
 	}
-	kb, cerrs := stdlib.NewStdKeyBuilder().Compile(b.tmpl)
+	kb, cerrs := stdBuilder.Compile(b.tmpl)
 	r := result{tmpl: b.tmpl}
 	if cerrs != nil {
 		r.cerr = cerrs
